@@ -34,6 +34,8 @@ KINDS = {
     23: 'proof honoured before processed time + delay period',
     24: 'proof honoured although the proof verification rejected it',
     25: 'proof verification changed the client store',
+    26: 'proof honoured before (block time at which the last accepted header for that height was processed, per this trace) + delay period',
+    27: 'proof honoured against a consensus state that is not the one of the last header accepted for that height in this trace',
 }
 
 SHARD = 30
@@ -318,9 +320,17 @@ def coverage(run, results, mm, ff):
              'ClientKeeper.UpdateClient on a real client store, or one VerifyPacketCommitment/Acknowledgement call; distinct = '
              'distinct (scenario tokens of the generator, result class, own validator set size)',
         distribution=dict(sorted(dist.items())), model_mismatches=len(mm), monitor_failures=len(ff),
-        samples=[dict(client=results[0]['spec']['client'],
-                      steps=[dict(kind=s['kind'], now=s['now'], desc=s.get('desc')) for s in results[0]['spec']['steps']])]
-        if results else []))
+        samples=[dict(id=r['spec']['id'], client=r['spec']['client'],
+                      steps=[dict(kind=st['kind'], now=st['now'], desc=st.get('desc'),
+                                  result=(['accepted', 'rejected', 'panicked'][o['keeper_class']] if o['kind'] == 'update'
+                                          else ['honoured', 'refused', 'panicked'][o['v_class']]),
+                                  **({'height': o['hdr']['signed']['header']['height'], 'trusted_height': o['hdr']['th'],
+                                      'own_powers': [v['power'] for v in (o['hdr']['valset'] or {'vals': []})['vals']],
+                                      'sig_flags': [sg['flag'] for sg in ((o['hdr']['signed'] or {}).get('commit') or {'sigs': []})['sigs']]}
+                                     if o['kind'] == 'update' and o['hdr']['signed'] and o['hdr']['signed']['header'] else
+                                     ({'vheight': st['vheight']} if o['kind'] == 'verify' else {})))
+                             for st, o in zip(r['spec']['steps'], r['obs'])])
+                 for r in (results[6:8] + results[-3:])]))
     run.coverage['trusted_base'] += [
         'hand-written model Model/Tendermint.v (XIBC Tendermint client + specification of tendermint v0.34.16 light.Verify, '
         'ValidatorSetFromProto, VerifyCommitLight(Trusting), stateless validation) tied to the real code by this differential run '
@@ -336,8 +346,32 @@ def coverage(run, results, mm, ff):
         'delay_gate: processedTime + TimeDelay < 2^64 (otherwise C07_delay_overflow_refuted)']
 
 
+def search_monitor_failure(run, tag='search'):
+    """model and code disagree but the monitor is silent on the cases of this run: look for a concrete property failure on
+    the real code with a larger budget (other seeds, longer histories); returns (results, h, s, k) or None"""
+    for i in range(3):
+        outp = os.path.join(run.work, '%s_%d.jsonl' % (tag, i))
+        rc, _ = vlib.run_harness('c07', ['-seed', int(run.seed) * 7919 + 104729 * (i + 1), '-n', run.budget(400, 1200), '-steps', 12,
+                                         '-corpus=false', '-out', outp])
+        if rc != 0:
+            return None
+        rs = vlib.read_jsonl(outp)
+        mm, ff = evaluate(run.work, rs, '%s_cases_%d' % (tag, i))
+        if mm is None:
+            return None
+        run.coverage['search_evaluations'] = run.coverage.get('search_evaluations', 0) + sum(len(r['obs']) for r in rs)
+        for h, st, k in ff:
+            spec = dict(rs[h]['spec'])
+            spec['steps'] = spec['steps'][:st + 1]
+            if finding_key(spec, st, k) is None:
+                return rs, h, st, k
+    return None
+
+
 def check(run):
     run.proof_stage()
+    if not run.quick():
+        run.coqchk_stage()
     ok, out = vlib.build_harness(['c07'])
     if not ok:
         run.violation(dict(kind='harness-build-failed', log=out[-3000:],
@@ -385,7 +419,19 @@ def check(run):
                       name='replay_h%d_k%d.json' % (h, k))
     run.coverage['known_finding_occurrences'] = known_seen
     if not run.violations:
-        for h, s, k in mm[:1]:  # model and code disagree, property monitor silent
+        for h, s, k in mm[:1]:  # model and code disagree, property monitor silent: search for a concrete property failure
+            found = search_monitor_failure(run)
+            if found is not None:
+                rs, fh, fs, fk = found
+                spec = dict(rs[fh]['spec'])
+                spec['steps'] = spec['steps'][:fs + 1]
+                small = shrink(run.work, spec, 'monitor', fk)
+                run.violation(dict(kind='monitor', code=fk, what=KINDS.get(fk), key=None, spec=small,
+                                   failing_step=len(small['steps']) - 1, found_by='search after a model/code disagreement',
+                                   observed={kk: vv for kk, vv in rs[fh]['obs'][fs].items()
+                                             if kk not in ('store', 'chus_store', 'hdr', 'oracle')}),
+                              name='replay_search_k%d.json' % fk)
+                break
             spec = dict(results[h]['spec'])
             spec['steps'] = spec['steps'][:s + 1]
             small = shrink(run.work, spec, 'model', k)
